@@ -94,13 +94,11 @@ pub trait AggValidFinal<T: IsNone>: Vec1View<T> {
             let corr: f64 = self
                 .titer()
                 .vcorr_pearson(self.titer().vshift(life as i32, None), min_periods);
-            if corr < 0.5 {
-                (last_n, n) = (last_n, life);
-            } else if corr > 0.5 {
+            if corr > 0.5 {
                 (last_n, n) = (life, n);
             } else {
-                n = life;
-                break;
+                // not above 0.5 (including exactly 0.5 and an undefined correlation): the first such lag is at most `life`
+                (last_n, n) = (last_n, life);
             }
         }
         n
